@@ -1131,8 +1131,13 @@ class ListTerm(PreTerm):
         def as_term(vi):
             if isinstance(vi, PreTerm):
                 return vi
-            if hasattr(vi, "item") and hasattr(vi, "dtype") and (vi.dtype.kind in "biuf"):
-                vi = vi.item()  # a numpy number
+            if (
+                hasattr(vi, "item")
+                and hasattr(vi, "dtype")
+                and (vi.dtype.kind in "biuf")
+                and (not hasattr(vi, "__len__"))
+            ):
+                vi = vi.item()  # a numpy number (not an array or a column)
             return Value(vi)
 
         self.value = [as_term(vi) for vi in value]
